@@ -630,7 +630,7 @@ func TestC08(t *testing.T) {
 	r.Assume("under-consumption of a valid message is counted (underread_valid) but not judged: the property only forbids consuming beyond the message; Response.SkipBody=true is only used with messages that carry no body on the wire (HEAD semantics)")
 	r.Assume("streaming readers (ContinueReadBodyStream, Response.StreamBody) are watched for panics and non-termination only")
 
-	n := r.N(400_000, 12_000_000)
+	n := r.N(400_000, 8_000_000)
 	const block = 2000
 	blocks := (n + block - 1) / block
 	workers := 0
